@@ -8,10 +8,10 @@ EXTENDS SListOps
 VARIABLES st, ok
 vars == <<st, ok>>
 Init == st = Init0 /\ ok = TRUE
-Next == \E o \in OpSet(st, TRUE) :
-           LET r == Apply(st, o) IN
+Step(o) == LET r == Apply(st, o) IN
            /\ st' = Canon(r.s)
            /\ ok' = (WF(r.s) /\ Contract(o, Seqs(st), Seqs(r.s), r.ret, r.ev))
+Next == \E o \in OpSet(st, TRUE) : Step(o)
 Spec == Init /\ [][Next]_vars
 InvOK == ok
 InvWF == WF(st)
